@@ -92,7 +92,6 @@ class SymBool:
 
 
 def mkbool(e):
-    e = z3.simplify(e)
     if z3.is_true(e):
         return True
     if z3.is_false(e):
@@ -112,17 +111,17 @@ def tobool(o):
     raise Unsupported("tobool %r" % (type(o),))
 
 
+_CONST_CACHE = {}
+
+
 class SymInt:
     """Python int as a signed bit-vector whose width always contains the value (every
     operation widens), plus a conservative interval [lo, hi] used to size widths."""
-    __slots__ = ("e", "lo", "hi")
+    __slots__ = ("e", "lo", "hi", "w")
 
-    def __init__(self, e, lo, hi):
+    def __init__(self, e, lo, hi, w=None):
         self.e, self.lo, self.hi = e, lo, hi
-
-    @property
-    def w(self):
-        return self.e.size()
+        self.w = e.size() if w is None else w
 
     @staticmethod
     def lift(o):
@@ -133,7 +132,13 @@ class SymInt:
         if isinstance(o, bool):
             o = int(o)
         if isinstance(o, int):
-            return SymInt(z3.BitVecVal(o, bits_for(o, o)), o, o)
+            c = _CONST_CACHE.get(o)
+            if c is None:
+                w = bits_for(o, o)
+                c = SymInt(z3.BitVecVal(o, w), o, o, w)
+                if len(_CONST_CACHE) < 4096:
+                    _CONST_CACHE[o] = c
+            return c
         raise Unsupported("lift %r" % (type(o),))
 
     def ext(self, w):
@@ -144,8 +149,10 @@ class SymInt:
         return z3.SignExt(w - self.w, self.e)
 
     def _bin(self, o, f, lo, hi):
+        if lo == hi:
+            return lo
         w = max(bits_for(lo, hi), self.w, o.w)
-        return mkint(SymInt(f(self.ext(w), o.ext(w)), lo, hi))
+        return SymInt(f(self.ext(w), o.ext(w)), lo, hi, w)
 
     def _lift_or_ni(self, o):
         if isinstance(o, (int, SymInt, SymBool)):
@@ -390,7 +397,7 @@ class SymInt:
     def _fmt_value(self):
         # a symbolic int rendered as text: exact (case split) when few values are possible,
         # otherwise an opaque tag (recorded: evidence lists it as an assumption)
-        if self.hi - self.lo <= CTX.fmt_split_cap:
+        if self.hi - self.lo < CTX.fmt_split_cap:
             return self.__index__()
         CTX.opaque_fmt += 1
         return None
@@ -421,10 +428,8 @@ def mkint(x):
     if isinstance(x, SymInt):
         if x.lo == x.hi:
             return x.lo
-        s = z3.simplify(x.e)
-        if z3.is_bv_value(s):
-            return s.as_signed_long()
-        x.e = s
+        if z3.is_bv_value(x.e):
+            return x.e.as_signed_long()
     return x
 
 
@@ -871,7 +876,7 @@ def is_sym(x):
 # exploration context
 # ------------------------------------------------------------------------------------------
 class Ctx:
-    fmt_split_cap = 16       # a SymInt with at most this many candidate values is rendered exactly
+    fmt_split_cap = 0        # a SymInt with at most this many candidate values is rendered exactly (case split); wider ones render as an opaque tag
     concretize_cap = 4096
 
     def __init__(self):
